@@ -257,7 +257,8 @@ impl<'a> Gen<'a> {
                 }],
             });
         }
-        if self.c.prob(100) {
+        let with_stream = self.c.prob(100);
+        if with_stream || self.control_heavy {
             self.types.push(TypeDecl {
                 name: "Stream".into(),
                 params: vec!["A".into()],
@@ -793,6 +794,9 @@ impl<'a> Gen<'a> {
             2,                                                   // 11 paren
             if is_data { 30 } else { 0 },                        // 12 ctor
             if is_cod { 30 } else { 0 },                         // 13 new
+            if eff && self.control_heavy { 7 } else { 0 },       // 14 exit-let
+            if eff && self.control_heavy && self.selfish_dtor(ty).is_some() { 40 } else { 0 }, // 15 label around a chain
+            if eff && self.cfg.effects_in_args && self.control_heavy && self.selfish_dtor(ty).is_none() && self.universe.iter().any(|t| self.selfish_dtor(t).is_some()) { 8 } else { 0 }, // 16 the same, let-bound
         ];
         match self.c.weighted(&w) {
             0 => self.leaf(env, ty, pure),
@@ -1003,8 +1007,69 @@ impl<'a> Gen<'a> {
                     None => self.leaf(env, ty, pure),
                 }
             }
-            _ => self.gen_new(env, ty, size - 1, pure, in_rec),
+            13 => self.gen_new(env, ty, size - 1, pure, in_rec),
+            14 => {
+                // `let z: i64 = if c { exit e } else { t }; exit y`: a control operator in tail
+                // position of a bound term whose continuation is itself tiny
+                let s = self.split(size - 1, 2);
+                let c1 = self.leaf(env, &Ty::I64, pure);
+                let thn = Tm::Exit(Box::new(self.leaf(env, &Ty::I64, pure)));
+                let els = self.gen_tm_rec(env, &Ty::I64, s[0], pure, in_rec);
+                let (thn, els) = if self.c.boolean() { (thn, els) } else { (els, thn) };
+                let bound = Tm::If { sort: Cmp::ALL[self.c.choose(6)], fst: Box::new(c1), snd: None, zero_left: false, thn: Box::new(thn), els: Box::new(els) };
+                let var = self.binder(env, &[], false);
+                let body = Tm::Exit(Box::new(self.leaf(env, &Ty::I64, pure)));
+                Tm::Let { var, ty: Ty::I64, lazy: false, bound: Box::new(bound), body: Box::new(body) }
+            }
+            16 => {
+                // `let s: S = label k { chain }; t` for a codata type S with a self-returning destructor
+                let cands: Vec<Ty> = self.universe.iter().filter(|t| self.selfish_dtor(t).is_some()).cloned().collect();
+                let sty = cands[self.c.choose(cands.len())].clone();
+                let s = self.split(size - 1, 2);
+                let bound = self.label_chain(env, &sty, s[0].max(3), pure, in_rec);
+                let var = self.binder(env, &[], false);
+                env.push(Bind { name: var.clone(), cns: false, ty: sty.clone() });
+                let body = self.gen_tm_rec(env, ty, s[1], pure, in_rec);
+                env.pop();
+                Tm::Let { var, ty: sty, lazy: true, bound: Box::new(bound), body: Box::new(body) }
+            }
+            _ => self.label_chain(env, ty, size, pure, in_rec),
         }
+    }
+
+    /// `label k { (if c { goto k (v) } else { t }).d.d }`: a destructor chain directly under a
+    /// label whose innermost scrutinee can jump to that label
+    fn label_chain(&mut self, env: &mut Vec<Bind>, ty: &Ty, size: usize, pure: bool, in_rec: bool) -> Tm {
+        let (dname, targs) = self.selfish_dtor(ty).expect("checked by the caller");
+        self.stats.labels += 1;
+        self.stats.gotos += 1;
+        let k = self.binder(env, &[], true);
+        env.push(Bind { name: k.clone(), cns: true, ty: ty.clone() });
+        let s = self.split(size.saturating_sub(1), 2);
+        let c1 = self.leaf(env, &Ty::I64, pure);
+        let jump = Tm::Goto { name: k.clone(), arg: Box::new(self.gen_tm_rec(env, ty, s[0].min(4), pure, in_rec)) };
+        let other = self.gen_tm_rec(env, ty, s[1], pure, in_rec);
+        let (thn, els) = if self.c.boolean() { (jump, other) } else { (other, jump) };
+        env.pop();
+        let inner = Tm::If { sort: Cmp::ALL[self.c.choose(6)], fst: Box::new(c1), snd: None, zero_left: false, thn: Box::new(thn), els: Box::new(els) };
+        let mut chain = Tm::Paren(Box::new(inner));
+        for _ in 0..(1 + self.c.choose(3)) {
+            chain = Tm::Dtor { scrut: Box::new(chain), name: dname.clone(), tyargs: targs.clone(), args: vec![] };
+        }
+        Tm::Label { name: k, body: Box::new(chain) }
+    }
+
+    /// an argument-free destructor of the codata type `ty` that returns `ty` itself
+    fn selfish_dtor(&self, ty: &Ty) -> Option<(String, Vec<Ty>)> {
+        let Ty::Named(n, targs) = ty else { return None };
+        let d = self.types.iter().find(|d| &d.name == n)?;
+        if !d.codata {
+            return None;
+        }
+        d.xtors
+            .iter()
+            .find(|y| y.args.is_empty() && y.ret.as_ref().map(|r| r.subst(&d.params, targs)) == Some(ty.clone()))
+            .map(|y| (y.name.clone(), targs.clone()))
     }
 
     fn gen_new(&mut self, env: &mut Vec<Bind>, ty: &Ty, size: usize, pure: bool, in_rec: bool) -> Tm {
